@@ -1,22 +1,59 @@
 (* C05 — observers can mirror the model from notifications alone.
-   Statements only; proofs in Proofs/C05Proofs.v over Model/Kernel.v
+   Statements only; proofs in Proofs/C05Proofs.v (attribute slots, exact shape)
+   and Proofs/C05Refs.v (the whole kernel) over Model/Kernel.v
    (valuecontainer.py + ENotifer.notify, statement by statement).
-   Proved (the attribute half, every data type, every multiplicity): each
+
+   THE MIRROR THEOREM (C05_mirror_history_partial and what it rests on).
+   The observer [mirror] applies every notification to its own copy of the
+   value store, at the cell (notifier, feature) it names: SET/UNSET replace the
+   slot by the new payload, ADD/ADD_MANY insert the payload item(s) (a set
+   insertion for unique features), REMOVE/REMOVE_MANY delete one occurrence of
+   each payload item; entries are applied oldest first.  Contents are compared
+   by [same_content]: equal counts of every value modulo the model's Python
+   equality [veqb] (True == 1 == 1.0), which is an equivalence relation on the
+   whole value domain (C05_python_equality_equivalence) — for unique features
+   this gives in particular the same members (C05_same_content_members).
+   [reported s s'] = "the log of s' extends the log of s, and the observer fed
+   the new entries turns the store of s into the store of s'" is reflexive and
+   transitive and holds between s and P(s) for EVERY kernel procedure P
+   (C05_every_procedure_reported: 27 procedures, the implicit opposite-end and
+   container updates included), hence for every operation
+   (C05_operation_reported) and every history from the initial state
+   (C05_mirror_history_partial): the observer that starts from the initial
+   values and applies each reported change ends with exactly the contents
+   every feature of every object really has.
+   Premises, all about the CALL or the metamodel (op_ok), none about the state:
+   - pop / clear / extend / item operations address a many-valued feature;
+   - c[i] = v and del c[i] address a UNIQUE collection: on list-based
+     collections they are the recorded known finding F-C05-elist-item-write,
+     which the model reproduces (C05_elist_item_write_refuted).  This is why
+     the history theorem is named _partial;
+   - extend / update / x.f = [...] on a UNIQUE collection need [wf_cont]: the
+     opposite of a containment reference is a single-valued non-containment
+     reference (EMF's rule for container references; every metamodel of the
+     generators satisfies it).  Without it the mirror really fails, in the
+     model and in pyecore alike (C05_bulk_add_many_valued_container_refuted):
+     these procedures write the own slot element by element and send ONE
+     ADD_MANY at the end, and with a many-valued opposite of a containment a
+     nested re-parenting removes (and reports) an element of the own slot in
+     between, which the observer then re-adds.
+   The state invariant the frame facts use (every recorded container feature is
+   a containment reference) is proved along the way (C05_container_invariant).
+   "Exactly once, right notifier": a slot that no new notification names has
+   kept its content (C05_unreported_unchanged); the notifications the code
+   sends without a change are idempotent for the observer and are exactly:
+   ADD for an element a unique collection already holds (own end and opposite
+   end), SET/UNSET re-writing the value already held (incl. UNSET None->None
+   sent by delete() / Resource.append on an empty slot), and ADD_MANY with an
+   empty payload (extend([]), x.f = []).  Positions are not reported, so
+   nothing is claimed about order.
+
+   THE ATTRIBUTE HALF, exact shape (the older _partial theorems below): each
    accepted operation on a non-reference feature changes exactly the addressed
-   slot and appends exactly one notification whose notifier, feature, kind
-   and old/new payload describe that change — SET/UNSET carry the previous
-   and the new value, ADD the inserted element, REMOVE the removed one,
-   REMOVE_MANY the whole previous content, ADD_MANY the argument — and an
-   empty clear reports nothing.  An observer applying them therefore holds
-   the slot's content (as a multiset; positions are not reported).
-   PARTIAL: for references the same shape holds per touched slot but the
-   composition with the implicit opposite/container updates is not yet a
-   theorem; it is carried by the correspondence on the notification log and
-   the mirror observer of harness/props/c05.py.  Known finding
-   F-C05-elist-item-write (item/slice writes on list-based collections) is
-   outside these theorems: the model reproduces it. *)
+   slot and appends exactly one notification whose notifier, feature, kind and
+   old/new payload describe that change; an empty clear reports nothing. *)
 From Coq Require Import ZArith List Bool Arith.
-From PyecoreV Require Import Lib.PyBase Lib.PyList Model.Kernel Proofs.KernelFacts Proofs.C05Proofs.
+From PyecoreV Require Import Lib.PyBase Lib.PyList Model.Kernel Proofs.KernelFacts Proofs.C05Proofs Proofs.C05Refs.
 Import ListNotations.
 
 Theorem C05_attribute_set_reported_partial :
@@ -96,3 +133,130 @@ Example C05_witness :
   let s := fold_left (next ex_mm) [OAppend 0 0 (VInt 7); OAppend 0 0 (VInt 7); OPop 0 0 (-1)] (init_state ex_mm) in
   vals s (0, 0) = [VInt 7] /\ map n_kind (log s) = [KRemove; KAdd; KAdd].
 Proof. vm_compute. split; reflexivity. Qed.
+
+(* ---------------- the whole kernel: Proofs/C05Refs.v ---------------- *)
+
+Theorem C05_python_equality_equivalence :
+  (forall a, veqb a a = true) /\
+  (forall a b, veqb a b = veqb b a) /\
+  (forall a b c, veqb a b = true -> veqb b c = true -> veqb a c = true).
+Proof. exact (conj veqb_refl (conj veqb_sym veqb_trans)). Qed.
+Print Assumptions C05_python_equality_equivalence.
+
+Theorem C05_same_content_members :
+  forall l1 l2 v, same_content l1 l2 -> vmem v l1 = vmem v l2.
+Proof. exact same_content_members. Qed.
+Print Assumptions C05_same_content_members.
+
+Theorem C05_same_content_length :
+  forall l1 l2, same_content l1 l2 -> length l1 = length l2.
+Proof. exact same_content_length. Qed.
+Print Assumptions C05_same_content_length.
+
+Theorem C05_reported_refl : forall m s, reported m s s.
+Proof. exact reported_refl. Qed.
+Print Assumptions C05_reported_refl.
+
+Theorem C05_reported_trans :
+  forall m s1 s2 s3, reported m s1 s2 -> reported m s2 s3 -> reported m s1 s3.
+Proof. exact reported_trans. Qed.
+Print Assumptions C05_reported_trans.
+
+Theorem C05_mirror_congruence :
+  forall m news V1 V2, (forall k, same_content (V1 k) (V2 k)) ->
+  forall k, same_content (mirror m news V1 k) (mirror m news V2 k).
+Proof. exact mirror_congruence. Qed.
+Print Assumptions C05_mirror_congruence.
+
+Theorem C05_mirror_composes :
+  forall m n2 n1 V k, mirror m (n2 ++ n1) V k = mirror m n2 (mirror m n1 V) k.
+Proof. exact mirror_app. Qed.
+Print Assumptions C05_mirror_composes.
+
+Theorem C05_every_procedure_reported :
+  forall m s,
+  (forall k v, reported m s (set_store m s k v)) /\
+  (forall k, reported m s (set_none_raw m s k)) /\
+  (forall k x, reported m s (coll_remove_raw m s k x)) /\
+  (forall x f y, reported m s (update_opposite_remove m s x f y)) /\
+  (forall k v, reported m s (coll_remove_full m s k v)) /\
+  (forall k, reported m s (set_none_full m s k)) /\
+  (forall k y, reported m s (remove_or_unset m s k y)) /\
+  (forall x f v p, reported m s (update_container m s x f v p)) /\
+  (forall k x, reported m s (set_obj_raw m s k x)) /\
+  (forall k x, reported m s (coll_append_raw m s k x)) /\
+  (forall x f y, reported m s (update_opposite_add m s x f y)) /\
+  (forall x f v, reported m s (link_elem m s x f v)) /\
+  (forall x f v, reported m s (unlink_elem m s x f v)) /\
+  (forall k v, reported m s (snd (set_full m s k v))) /\
+  (forall k pos v, reported m s (snd (coll_add_full m s k pos v))) /\
+  (forall k v, reported m s (snd (coll_remove_top m s k v))) /\
+  (forall x f i, f_many (fd m f) = true -> reported m s (snd (fst (coll_pop_full m s (x, f) i)))) /\
+  (forall x f, f_many (fd m f) = true -> reported m s (coll_clear_full m s (x, f))) /\
+  (forall x f vs, f_many (fd m f) = true -> (f_unique (fd m f) = true -> wf_cont m) -> cont_wf m s ->
+     reported m s (snd (coll_extend_full m s (x, f) vs))) /\
+  (forall x f i v, f_many (fd m f) = true -> f_unique (fd m f) = true ->
+     reported m s (snd (coll_setitem_full m s (x, f) i v))) /\
+  (forall x f i, f_many (fd m f) = true -> f_unique (fd m f) = true ->
+     reported m s (snd (coll_delitem_full m s (x, f) i))) /\
+  (forall x f vs, f_many (fd m f) = true -> (f_unique (fd m f) = true -> wf_cont m) -> cont_wf m s ->
+     reported m s (snd (assign_full m s (x, f) vs))) /\
+  (forall x f, reported m s (snd (del_full m s (x, f)))) /\
+  (forall x k, reported m s (delete_step m x s k)) /\
+  (forall fuel x r, reported m s (delete_obj fuel m s x r)) /\
+  (forall r o, reported m s (res_append m s r o)) /\
+  (forall r o, reported m s (snd (res_remove s r o))).
+Proof. exact reported_procedures. Qed.
+Print Assumptions C05_every_procedure_reported.
+
+Theorem C05_operation_reported :
+  forall m s o, cont_wf m s -> op_ok m o -> reported m s (next m s o).
+Proof. exact reported_op. Qed.
+Print Assumptions C05_operation_reported.
+
+Theorem C05_container_invariant :
+  forall m ops, Forall (op_ok m) ops -> cont_wf m (fold_left (next m) ops (init_state m)).
+Proof. exact cont_wf_history. Qed.
+Print Assumptions C05_container_invariant.
+
+(* _partial: op_ok excludes item assignment/deletion on list-based collections (known finding) *)
+Theorem C05_mirror_history_partial :
+  forall m ops, Forall (op_ok m) ops ->
+  let s := fold_left (next m) ops (init_state m) in
+  forall k, same_content (vals s k) (mirror m (log s) (vals (init_state m)) k).
+Proof. exact mirror_history. Qed.
+Print Assumptions C05_mirror_history_partial.
+
+Theorem C05_unreported_unchanged :
+  forall m s s' k news,
+  reported m s s' -> log s' = news ++ log s -> Forall (fun n => ncell n <> k) news ->
+  same_content (vals s' k) (vals s k).
+Proof. exact unreported_unchanged. Qed.
+Print Assumptions C05_unreported_unchanged.
+
+(* known finding F-C05-elist-item-write, reproduced by the model *)
+Example C05_elist_item_write_refuted :
+  let del := [OAppend 0 0 (VInt 7); ODelItem 0 0 0%Z] in
+  let set := [OAppend 0 0 (VInt 7); OSetItem 0 0 0%Z (VInt 8)] in
+  vals (run mm_list del) (0, 0) = [] /\ observed mm_list del (0, 0) = [VInt 7] /\
+  vals (run mm_list set) (0, 0) = [VInt 8] /\ observed mm_list set (0, 0) = [VInt 7; VInt 8].
+Proof. exact item_write_refuted. Qed.
+
+(* the metamodel premise of bulk additions is needed *)
+Example C05_bulk_add_many_valued_container_refuted :
+  let ops := [OAppend 1 1 (VObj 0); OExtend 0 0 [VObj 1; VObj 2]] in
+  vals (run mm_badcont ops) (0, 0) = [VObj 2] /\
+  observed mm_badcont ops (0, 0) = [VObj 1; VObj 2] /\
+  ~ wf_cont mm_badcont.
+Proof. exact extend_needs_wf_cont_refuted. Qed.
+
+(* non-vacuity: references with opposites and containment, seven accepted operations *)
+Example C05_mirror_witness :
+  let ops := [OAppend 0 2 (VObj 1); OExtend 2 2 [VObj 1; VObj 3]; OExtend 0 0 [VObj 1; VObj 2];
+              OSet 3 3 (VObj 0); OPop 0 0 0%Z; OSetItem 2 2 0%Z (VObj 0); ODelete 1 true] in
+  wf_cont mm_ok /\ Forall (op_ok mm_ok) ops /\
+  map n_kind (log (run mm_ok ops)) <> [] /\
+  forallb (fun k => match vals (run mm_ok ops) k, observed mm_ok ops k with
+                    | l1, l2 => forallb (fun v => vmem v l2) l1 && forallb (fun v => vmem v l1) l2 end)
+          (list_prod [0; 1; 2; 3] [0; 1; 2; 3]) = true.
+Proof. exact mirror_witness. Qed.
